@@ -194,9 +194,14 @@ pub fn finish(rep: Report<'_>, stats: &Stats, viols: &[Viol], wall_s: f64) -> i3
         "wall_s": wall_s,
         "violations": unknown.len(),
     });
-    let dir = verif_root().join("evidence");
+    // a property decided in several build configurations writes one part per configuration; the
+    // check script merges them into evidence/<id>.json
+    let (dir, name) = match std::env::var("MC_EVIDENCE_SUFFIX") {
+        Ok(suf) if !suf.is_empty() => (verif_root().join("evidence").join("parts"), format!("{}.{}.json", rep.id, suf)),
+        _ => (verif_root().join("evidence"), format!("{}.json", rep.id)),
+    };
     let _ = std::fs::create_dir_all(&dir);
-    let p = dir.join(format!("{}.json", rep.id));
+    let p = dir.join(name);
     if let Err(e) = std::fs::write(&p, serde_json::to_string_pretty(&ev).unwrap()) {
         eprintln!("MACHINERY: cannot write evidence {}: {e}", p.display());
         return 2;
